@@ -22,16 +22,17 @@
       (known / parent = the BlockIndex ENTRY the caller found under the 8-byte key; the entry's whole hash is given for
        `known`, and taken from the node (`idx`) for the parent; the whole-hash comparisons are the model's)
     post <rawLen> <preParsed> <buildOk> <trusted> <height> <mtp> <time> <merkleroot>
-         <bip34> <bip65> <bip66> <csv> <segwit> <taproot> <tx>*
+         <bip34> <bip65> <bip66> <csv> <segwit> <taproot> <bl.TxCount on entry> <tx>*
                                              -> <code> <flags> | panic
       tx = txid,wtxid,lock,nowit,size,ins,in0script,outs,segwit,values   (see parseTx)
     idx <hash32> <node idx>                  -> ok        (node.BlockHash = hash; ch.BlockIndex[hash.BIdx()] = node)
     unidx <hash32>                           -> ok        (delete(ch.BlockIndex, hash.BIdx()))
     last <node idx>                          -> ok        (ch.SetLast)
     cb <rawLen> <ver> <hash32> <prevhash32> <bits> <time> <now> <testnet> <testnet4> <maxbits> <maxvalue>
-       <bip34> <bip65> <bip66> <csv> <segwit> <taproot> <preParsed> <buildOk> <buildAssigned> <trusted> <merkleroot> <tx>*
+       <bip34> <bip65> <bip66> <csv> <segwit> <taproot> <preParsed> <buildOk> <buildAssigned> <trusted> <merkleroot>
+       <bl.TxCount on entry> <count field of Raw> <tx>*
                                              -> <dos> <maybelater> <code> <bl.Height> <bl.MedianPastTime> <bl.VerifyFlags> <len(bl.Txs)|nil>
-                                                <#nodes> <len(BlockIndex)> <last>      | panic
+                                                <#nodes> <len(BlockIndex)> <last> <bl.TxCount>     | panic
        (Chain.CheckBlock with its effects: `BlockCheck.checkBlockM` on the chain state held here)
 -/
 import GocoinV.Model.BlockCheck
@@ -187,12 +188,12 @@ def step (s : St) (toks : List String) : St × String :=
       match preCheckBlock p cons i with
       | none => pure "panic"
       | some o => pure s!"{Proto.boolStr o.dos} {Proto.boolStr o.maybelater} {o.err.code} {o.height} {o.mtp}"
-  | "post" :: rawLen :: pp :: bo :: tr :: height :: mtp :: time :: root :: b34 :: b65 :: b66 :: csv :: sw :: tap :: txs => reply do
+  | "post" :: rawLen :: pp :: bo :: tr :: height :: mtp :: time :: root :: b34 :: b65 :: b66 :: csv :: sw :: tap :: cnt :: txs => reply do
       let cons ← parseCons b34 b65 b66 csv sw tap
       let txs ← txs.mapM parseTx
       let i : PostIn := { rawLen := ← rawLen.toNat?, preParsed := ← b01 pp, buildOk := ← b01 bo, trusted := ← b01 tr,
                           height := ← height.toNat?, mtp := ← mtp.toNat?, time := ← time.toNat?,
-                          merkleRoot := ← Hex.decode root, txs := txs }
+                          merkleRoot := ← Hex.decode root, txs := txs, cntOnEntry := ← cnt.toNat? }
       match postCheckBlock sha256d cons i with
       | none => pure "panic"
       | some (e, f) => pure s!"{e.code} {f}"
@@ -213,7 +214,7 @@ def step (s : St) (toks : List String) : St × String :=
     | some i => if i < s.nodes.size then ({ s with last := i }, "ok") else bad
     | none => bad
   | "cb" :: rawLen :: ver :: hash :: prev :: bits :: time :: now :: tn :: tn4 :: mb :: mv :: b34 :: b65 :: b66 :: csv :: sw :: tap ::
-      pp :: bo :: ba :: tr :: root :: txs => reply do
+      pp :: bo :: ba :: tr :: root :: cnt :: rcnt :: txs => reply do
       let hash ← Hex.decode hash
       if hash.length ≠ 32 then none
       let prev ← Hex.decode prev
@@ -225,12 +226,13 @@ def step (s : St) (toks : List String) : St × String :=
       let bl : BlockObj := { rawLen := ← rawLen.toNat?, ver := ← ver.toNat?, hash := leVal hash, parentHash := leVal prev,
                              bits := ← bits.toNat?, time := ← time.toNat?, merkleRoot := ← Hex.decode root,
                              trusted := ← b01 tr, build := if (← b01 ba) then some txs else none, buildOk := ← b01 bo, height := 0, mtp := 0,
-                             txs := if pp then some txs else none, verifyFlags := 0 }
+                             txs := if pp then some txs else none, verifyFlags := 0,
+                             txCount := ← cnt.toNat?, rawCount := ← rcnt.toNat? }
       match checkBlockM p cons sha256d (← now.toInt?) s.cs bl with
       | none => pure "panic"
       | some (cs, bl, r) =>
         let ntx := match bl.txs with | none => "nil" | some l => toString l.length
-        pure s!"{Proto.boolStr r.dos} {Proto.boolStr r.maybelater} {r.code} {bl.height} {bl.mtp} {bl.verifyFlags} {ntx} {cs.nodes.size} {cs.index.length} {cs.last}"
+        pure s!"{Proto.boolStr r.dos} {Proto.boolStr r.maybelater} {r.code} {bl.height} {bl.mtp} {bl.verifyFlags} {ntx} {cs.nodes.size} {cs.index.length} {cs.last} {bl.txCount}"
   | _ => bad
 
 def main : IO Unit := Proto.serve ({} : St) step
